@@ -67,13 +67,19 @@ func findDriver(verifDir, obligation string) *replayDriver {
 // the recorded input is re-run.  Returns the driver's report (nil if it found
 // nothing) and a transcript.
 func runDriver(repo, verifDir string, d *replayDriver, obligation, input string, seed int, budgetS int) (map[string]any, string) {
+	rep, tr, _ := runDriverStats(repo, verifDir, d, obligation, input, seed, budgetS)
+	return rep, tr
+}
+
+// runDriverStats: as runDriver, also returning the number of cases the driver ran.
+func runDriverStats(repo, verifDir string, d *replayDriver, obligation, input string, seed int, budgetS int) (map[string]any, string, int) {
 	src := filepath.Join(verifDir, "replay_drivers", d.File)
 	if _, err := os.Stat(src); err != nil {
-		return nil, "driver source missing: " + src
+		return nil, "driver source missing: " + src, 0
 	}
 	scratch, err := os.MkdirTemp("/var/tmp", "verif-replay-")
 	if err != nil {
-		return nil, err.Error()
+		return nil, err.Error(), 0
 	}
 	defer os.RemoveAll(scratch)
 	pkgDir := filepath.Join(repo, strings.TrimPrefix(d.Pkg, "./"))
@@ -90,21 +96,76 @@ func runDriver(repo, verifDir string, d *replayDriver, obligation, input string,
 	cmd.Dir = repo
 	cmd.Env = append(goEnv(),
 		"VERIF_REPLAY_OUT="+outPath,
+		"VERIF_REPLAY_STATS="+outPath+".stats",
 		"VERIF_REPLAY_OBLIGATION="+obligation,
 		"VERIF_REPLAY_INPUT="+input,
 		fmt.Sprintf("VERIF_REPLAY_SEED=%d", seed),
 		fmt.Sprintf("VERIF_REPLAY_BUDGET_S=%d", budgetS))
 	out, _ := cmd.CombinedOutput()
 	transcript := trunc(string(out), 6000)
+	cases := 0
+	if sb, err := os.ReadFile(outPath + ".stats"); err == nil {
+		var st struct {
+			Cases int `json:"cases"`
+		}
+		if json.Unmarshal(sb, &st) == nil {
+			cases = st.Cases
+		}
+	}
 	b, err := os.ReadFile(outPath)
 	if err != nil {
-		return nil, transcript
+		return nil, transcript, cases
 	}
 	var rep map[string]any
 	if json.Unmarshal(b, &rep) != nil {
-		return nil, transcript
+		return nil, transcript, cases
 	}
-	return rep, transcript
+	if c, ok := rep["cases_tried"].(float64); ok {
+		cases = int(c)
+	}
+	return rep, transcript, cases
+}
+
+// boundedStandIns runs, in the thorough tier, every driver that covers a function of
+// the property on the unchanged/current tree with a longer budget.  This is a BOUNDED
+// search with an independent oracle written from the property statement - it is
+// reported as such and never counted among the discharged obligations - but an input
+// on which the real code breaks the oracle is a violation with a concrete failing input.
+func boundedStandIns(repo, verifDir string, fnNames []string, seed, budgetS int) (results []map[string]any, found []map[string]any) {
+	seen := map[string]bool{}
+	for _, d := range loadDrivers(verifDir) {
+		hit := ""
+		for _, m := range d.Match {
+			for _, fn := range fnNames {
+				if strings.HasPrefix(fn+"#", m) || strings.HasPrefix(m, fn+"#") || (strings.HasSuffix(m, ".") && strings.HasPrefix(fn, m)) {
+					hit = fn
+				}
+			}
+		}
+		key := d.File + "|" + d.Test
+		if hit == "" || seen[key] {
+			continue
+		}
+		seen[key] = true
+		dd := d
+		rep, transcript, cases := runDriverStats(repo, verifDir, &dd, hit+"#bounded", "", seed, budgetS)
+		r := map[string]any{"driver": d.File, "test": d.Test, "package": d.Pkg, "what": d.Note, "budget_s": budgetS, "seed": seed, "cases": cases, "found_failing_input": rep != nil}
+		if rep != nil {
+			r["failing_input"] = rep["input"]
+			r["clause"] = rep["clause"]
+			r["observed"] = rep["observed"]
+			r["expected"] = rep["expected"]
+			rep["driver"] = d.File
+			rep["function"] = hit
+			ib, _ := json.Marshal(rep["input"])
+			rep["input_json"] = string(ib)
+			found = append(found, rep)
+		} else if cases == 0 {
+			r["note"] = "driver did not report its case count: " + lastLines(transcript, 3)
+		}
+		results = append(results, r)
+	}
+	return results, found
 }
 
 type driverResult struct {
